@@ -127,6 +127,28 @@ Theorem C20_receptive_spec : forall nd ign sl (g : tsys) s s',
   = receptive_sem esem nd g s s'.
 Proof. exact (receptive_spec EL NL esem nsem). Qed.
 
+(* ---- declarations made by graph_to_logic -------------------------------- *)
+
+(* the node variable is declared with the tight range of the node ids
+   (`_nodevar_dom`) *)
+Theorem C20_nodevar_dom_spec : forall (g : tsys),
+  ts_nodes g <> [] ->
+  let '(lo, hi) := nodevar_dom g in
+  (forall u, In u (node_ids g) -> (lo <= u <= hi)%Z)
+  /\ In lo (node_ids g) /\ In hi (node_ids g).
+Proof. exact (nodevar_dom_spec EL NL). Qed.
+
+(* the node variable belongs to the owner of the graph; every other variable
+   is the environment's iff it is in env_vars, the component's iff it is
+   declared and not in env_vars *)
+Theorem C20_varlists_spec : forall nd (g : tsys),
+  let '(env, sys) := varlists nd g in
+  (if ts_owner_sys g then In nd sys else In nd env)
+  /\ (forall k, k <> nd ->
+        (In k env <-> In k (ts_env_vars g)) /\
+        (In k sys <-> In k (ts_vars g) /\ ~ In k (ts_env_vars g))).
+Proof. exact (varlists_spec EL NL). Qed.
+
 (* ---- lifted to runs ------------------------------------------------------ *)
 
 (* finite runs of the owner's action that start at a node of the graph are
@@ -222,6 +244,11 @@ Proof.
   destruct H as [H|[H|[H|[]]]]; inversion H; subst; cbn; auto.
 Qed.
 
+Example C20_example_nodevar_dom :
+  ts_nodes ex_g <> [] /\ nodevar_dom ex_g = (0, 2)
+  /\ varlists ex_k ex_g = ([ex_k], [ex_x]).
+Proof. split; [discriminate|split; reflexivity]. Qed.
+
 (* a dead end (hypotheses of C20_dead_end_no_step): node 1 of 0 -> 1 *)
 Definition ex_dead : tsys unit unit :=
   Build_tsys [(0, ex_nl); (1, ex_nl)] [(0, 1, Build_elabel None [])]
@@ -280,5 +307,7 @@ Print Assumptions C20_init_spec.
 Print Assumptions C20_other_player_unconstrained.
 Print Assumptions C20_other_init_true.
 Print Assumptions C20_receptive_spec.
+Print Assumptions C20_nodevar_dom_spec.
+Print Assumptions C20_varlists_spec.
 Print Assumptions C20_runs_are_paths.
 Print Assumptions C20_initial_runs_are_paths.
